@@ -478,14 +478,14 @@ func c17reference(w c17world, target string, f c17flags) (accept []c17answer, ma
 
 func verifC17(c *drv.Ctx) {
 	defer vE2ECleanup()
-	targets := []string{"10.0.0.9", "10.0.1.0/24", "10.0.200.1", "10.0.0.0/20", "8.8.8.8", "10.8.0.0/28", ""}
+	targets := []string{"10.0.0.9", "10.0.1.0/24", "10.0.200.1", "10.0.0.0/20", "8.8.8.8", "10.8.0.0/28", "", "file+10.0.1.0/24", "file+10.8.0.0/28"}
 	cmds := []struct {
 		name string
 		args []string
 		kind string
 	}{{"tcp-syn", []string{"tcp", "syn", "-p", "80"}, "tcp"}, {"icmp", []string{"icmp"}, "icmp"}, {"arp", []string{"arp"}, "arp"}, {"udp", []string{"udp", "-p", "53"}, "udp"}}
 	c.R.Rule = "host configurations = 14 interface sets (one or two Ethernet interfaces and a MAC-less tunnel, one or two addresses each in both orders, overlapping subnets on one and on two interfaces, an IPv6 address listed first, no IPv4 address, no address) x every applicable default-route set of 12 (none, one, two with different metrics in both dump orders, equal metrics, via the tunnel, metric 0, with a preferred-source attribute); " +
-		"targets {on-link host, on-link /24 of the second address, host inside the /16 only, /20 wider than a /24 that holds its base, off-link host, tunnel subnet, none (file mode)} x --iface {absent, each interface} x --srcip {absent, 1.2.3.4, an IPv6 address (must be refused)} x --srcmac {absent, given}; command tcp syn for all, icmp/arp/udp for the flag-less and --iface cases (quick: every third world for those). " +
+		"targets {on-link host, on-link /24 of the second address, host inside the /16 only, /20 wider than a /24 that holds its base, off-link host, tunnel subnet, none (file mode), file mode with a subnet argument (on-link /24, tunnel subnet)} x --iface {absent, each interface} x --srcip {absent, 1.2.3.4, an IPv6 address (must be refused)} x --srcmac {absent, given}; command tcp syn for all, icmp/arp/udp for the flag-less and --iface cases (quick: every third world for those). " +
 		"One end-to-end run of the real command each; observed: interface the socket is opened on, source MAC/IP and framing of the frame on the wire, or the error. Reference: table-driven reading of the statement with open ties (two attached interfaces, equal metrics, partial containment, IPv6 listed first, --srcmac on a MAC-less interface) accepted either way. non-trivial = configuration in which at least one answer is acceptable (not only failure)"
 	idx := 0
 	wi := 0
@@ -502,7 +502,7 @@ func verifC17(c *drv.Ctx) {
 					continue
 				}
 				for _, target := range targets {
-					if target == "" && cmd.kind == "arp" {
+					if (target == "" || strings.HasPrefix(target, "file+")) && cmd.kind == "arp" {
 						continue
 					}
 					for _, fi := range append([]string{""}, ifnames...) {
@@ -543,12 +543,23 @@ func c17one(c *drv.Ctx, w c17world, cname string, cargs []string, kind, target s
 	if f.srcmac != "" {
 		args = append(args, "--srcmac", f.srcmac)
 	}
+	// "file+<subnet>": the targets come from a file AND a subnet argument is given: the argument is the
+	// target subnet that selects the interface
+	fileToo := strings.HasPrefix(target, "file+")
+	target = strings.TrimPrefix(target, "file+")
 	dst := target
-	if target == "" {
+	if target == "" || fileToo {
+		entry := "8.8.4.4"
+		if fileToo {
+			e, _, _ := net.ParseCIDR(target)
+			e = e.To4()
+			e[3]++
+			entry = e.String()
+		}
 		if kind == "icmp" {
-			sc.Files["t.jsonl"] = `{"ip":"8.8.4.4"}` + "\n"
+			sc.Files["t.jsonl"] = `{"ip":"` + entry + `"}` + "\n"
 		} else {
-			sc.Files["t.jsonl"] = `{"ip":"8.8.4.4","port":80}` + "\n"
+			sc.Files["t.jsonl"] = `{"ip":"` + entry + `","port":80}` + "\n"
 		}
 		args = append(args, "-f", "{DIR}/t.jsonl")
 		if kind == "udp" || kind == "tcp" {
@@ -563,7 +574,8 @@ func c17one(c *drv.Ctx, w c17world, cname string, cargs []string, kind, target s
 			}
 			args = a2
 		}
-	} else {
+	}
+	if target != "" {
 		if strings.Contains(target, "/") {
 			// probe one host of a subnet target: keep runs small with an exclusion? no - small subnets only
 			_, n, _ := net.ParseCIDR(target)
@@ -613,7 +625,7 @@ func c17one(c *drv.Ctx, w c17world, cname string, cargs []string, kind, target s
 	if len(accept) > 0 {
 		c.Nontrivial(1)
 	}
-	desc := fmt.Sprintf("%s target=%q flags=%+v world=%s routes=%v", cname, target, f, c17ifStr(w.ifs), w.routes)
+	desc := fmt.Sprintf("%s target=%q from-file-too=%v flags=%+v world=%s routes=%v", cname, target, fileToo, f, c17ifStr(w.ifs), w.routes)
 	rep := map[string]any{"part": "c17", "args": args, "world": c17ifStr(w.ifs), "routes": fmt.Sprint(w.routes)}
 	key := func(cl string) string {
 		return fmt.Sprintf("iface:%s:%s:target=%s:flags=%s/%s/%s:world=%s:routes=%v", cl, cname, target, f.iface, f.srcip, f.srcmac, c17ifStr(w.ifs), w.routes)
